@@ -1,6 +1,10 @@
 package world
 
-import "fmt"
+import (
+	"fmt"
+
+	"github.com/go-kid/ioc/syslog"
+)
 
 // Compile-time holder types for struct shapes that reflect.StructOf cannot build: embedded structs
 // whose own type name is unexported. Their exported fields are promoted and settable, so tags on
@@ -98,19 +102,6 @@ func (h *HolderLowerChain) Check(nameOf func(any) string) []string {
 
 // Function-local types: two distinct types that share package path AND name ("base"), one without
 // any settable field and one with tagged fields (a trap for caches keyed by type name).
-type localEmpty struct {
-	Own string
-	ok  func() (string, int)
-}
-
-func (h *localEmpty) Check(nameOf func(any) string) []string { return nil }
-
-type localFull struct {
-	get func() (string, string, any)
-}
-
-func (h *localFull) Check(nameOf func(any) string) []string { return nil }
-
 // NewLocalTypeFixtures returns two holders (of function-local types embedding function-local types
 // both named "base") and a checker.
 func NewLocalTypeFixtures() (first any, second any, check func(nameOf func(any) string) []string) {
@@ -144,6 +135,58 @@ func NewLocalTypeFixtures() (first any, second any, check func(nameOf func(any) 
 	}
 }
 
+// Two sibling mix-ins that each declare a field named Store (legal Go: the selector h.Store would be
+// ambiguous, the fields themselves are distinct), plus an outer field shadowing a promoted one.
+type MixA struct {
+	Store IA `wire:"pa"`
+}
+type MixB struct {
+	Store IA `wire:"pab"`
+}
+type MixC struct {
+	Level string `value:"inner"`
+}
+type HolderSiblings struct {
+	MixA
+	MixB
+	MixC
+	Level string `value:"outer"` // shadows MixC.Level
+}
+
+func (h *HolderSiblings) Check(nameOf func(any) string) []string {
+	var out []string
+	if nameOf(h.MixA.Store) != "pa" || nameOf(h.MixB.Store) != "pab" {
+		out = append(out, fmt.Sprintf("HolderSiblings: MixA.Store=%q (want pa) MixB.Store=%q (want pab): equally named fields of sibling embedded structs are distinct fields", nameOf(h.MixA.Store), nameOf(h.MixB.Store)))
+	}
+	if h.Level != "outer" || h.MixC.Level != "inner" {
+		out = append(out, fmt.Sprintf("HolderSiblings: Level=%q (want outer) MixC.Level=%q (want inner)", h.Level, h.MixC.Level))
+	}
+	return out
+}
+
+// An embedded *pointer* to a struct is not looked into, whether the pointer is nil or not: the struct
+// behind it belongs to somebody else.
+type SharedState struct {
+	V string        `value:"hello"`
+	D IA            `wire:"pab"`
+	L syslog.Logger `logger:""`
+}
+type HolderPtrEmbedded struct {
+	*SharedState
+	Own string `value:"own"`
+}
+
+func (h *HolderPtrEmbedded) Check(nameOf func(any) string) []string {
+	var out []string
+	if h.Own != "own" {
+		out = append(out, "HolderPtrEmbedded.Own not bound")
+	}
+	if h.SharedState == nil || h.SharedState.V != "SENTINEL" || h.SharedState.D != nil || h.SharedState.L != nil {
+		out = append(out, fmt.Sprintf("HolderPtrEmbedded: the struct behind the embedded pointer was written: %+v", h.SharedState))
+	}
+	return out
+}
+
 // NewEmbedFixtures returns fresh fixture holders with sentinels in the fields the container must not touch.
 func NewEmbedFixtures() []EmbedFixture {
 	a := &HolderFlat{u: 777, N: "SENTINEL"}
@@ -153,5 +196,5 @@ func NewEmbedFixtures() []EmbedFixture {
 	c.u, c.N = 777, "SENTINEL"
 	d := &HolderLowerChain{}
 	d.u, d.N = 777, "SENTINEL"
-	return []EmbedFixture{a, b, c, d}
+	return []EmbedFixture{a, b, c, d, &HolderSiblings{}, &HolderPtrEmbedded{SharedState: &SharedState{V: "SENTINEL"}}}
 }
